@@ -50,7 +50,9 @@ PROPS_PART = {
                      bound='zone_file::Parser and Parser::records_only, each text read whole / 1 / 7 octets per read(): 2 contexts x 9 class tokens x 62 type tokens (mnemonics in any case, TYPEnnn for known / NULL / OPT / TSIG / unknown / malformed numbers) x 153 RDATA texts '
                            '(presentation forms of every supported type + RFC 3597 generic forms incl. \\# 0, wrong lengths, malformed-for-type); 28 preambles ($ORIGIN/$TTL/$INCLUDE valid, invalid, relative) x 16 owners x 20 TTL/class orders x 11 records + continuation line; '
                            'TXT RDATA of 65534..65537 octets in 4 shapes, generic \\# 65534..65537 for 7 types, fields of 65535..70000 octets in 43 positions, WKS with 65534..65537 ports, strings of 254..257, labels of 62..65, names of 252..257 octets; '
-                           '4 multi-record zone texts x every prefix / 1-byte deletion / 1-byte substitution and insertion from 18 symbols; all byte strings of length <= 3 over 20 symbols; all sequences of <= 4 tokens over 16 tokens',
+                           '4 multi-record zone texts x every prefix / 1-byte deletion / 1-byte substitution and insertion from 18 symbols; all byte strings of length <= 3 over 20 symbols; all sequences of <= 4 tokens over 16 tokens; '
+                           'transient I/O errors: 5 multi-line zone texts read 1 / 7 octets / one line per read() from a stream whose k-th read() call fails once (io::ErrorKind::Other) and then '
+                           'continues with the rest of the text, for every k up to the number of read() calls of the undisturbed parse',
                      what='on the real parser (tokenizer included): never panics, terminates (item cap 10000), yields nothing after its first error; every yielded record has a well-formed absolute owner, a type other than NULL/OPT/TSIG, '
                           'RDATA of <= 65535 octets valid per Rdata::validate(class, type) AND per the independent RFC layout reference bounded/src/wire_ref.rs. Which error is returned / how many records are yielded is not constrained')],
         kani=[],
